@@ -57,6 +57,9 @@ def stream_generate_mesh(R, tier, seed):
     for num_y in (5, 4, 7, 2, 3, 6):
         for wt in ("rect", "CRM", "CRM:alpha_2.75", "uCRM_based", "crm", "elliptic", "", "rectangular", "Rect"):
             variants.append(dict(base, num_y=num_y, wing_type=wt))
+            # the parity check does not depend on the symmetry flag (a seeded change that applied it only to symmetric
+            # requests was missed while every variant had symmetry True)
+            variants.append(dict(base, num_y=num_y, wing_type=wt, symmetry=False))
     for missing in ("num_x", "num_y", "wing_type", "symmetry"):
         d = dict(base); del d[missing]; variants.append(d)
         d2 = dict(base, wing_type="CRM"); d2.pop(missing, None); variants.append(d2)
